@@ -188,6 +188,142 @@ theorem rotation_shift_four_pi (k : Consts R) (L : k.Laws) (b : Base) (θ : Ang)
     unfold Consts.misinH; rw [Ang.neg_add', L.e_add, L.e_add, e4, e4n]; ring
   cases b <;> simp [baseMatrix, Consts.sinH, hc, hm, Ang.neg_add', L.e_add, e4, e4n]
 
+/-! ## a whole pass: `remove_small_rotations` preserves the operation up to a sign -/
+
+/-- operations are linear: a scalar factor passes through -/
+theorem Op.sem_smul (k : Consts R) (o : Op) (c : R) (ψ : State R) :
+    o.sem k (fun x => c * ψ x) = fun x => c * o.sem k ψ x := by
+  funext x
+  cases o with
+  | one b θ t cs =>
+    simp only [Op.sem, ctl, app1]
+    split
+    · split <;> ring
+    · rfl
+  | swap a b cs =>
+    simp only [Op.sem, ctl, appSwap]
+    split <;> rfl
+  | xx θ a b => simp only [Op.sem, appXX]; ring
+
+theorem semOps_smul (k : Consts R) (ops : List Op) (c : R) (ψ : State R) :
+    semOps k ops (fun x => c * ψ x) = fun x => c * semOps k ops ψ x := by
+  induction ops generalizing ψ with
+  | nil => rfl
+  | cons o os ih =>
+    show semOps k os (o.sem k (fun x => c * ψ x)) = _
+    rw [Op.sem_smul, ih]; rfl
+
+/-- the operation is ± the identity (what a rotation by a multiple of 2π is) -/
+def IsSignId (k : Consts R) (o : Op) : Prop := ∃ s : R, s * s = 1 ∧ ∀ ψ : State R, o.sem k ψ = fun x => s * ψ x
+
+/-- keep the entries whose mask bit is `true` -/
+def maskFilter {α : Type} : List Bool → List α → List α
+  | b :: bs, a :: as => if b then a :: maskFilter bs as else maskFilter bs as
+  | _, _ => []
+
+theorem filter_eq_mask {α : Type} (p : α → Bool) (l : List α) : l.filter p = maskFilter (l.map p) l := by
+  induction l with
+  | nil => rfl
+  | cons a as ih => simp only [List.filter_cons, List.map_cons, maskFilter, ih]
+
+theorem gatesToOps_mask (gs : List Gate) (ops : List Op) (mask : List Bool) (h : gatesToOps gs = some ops) :
+    gatesToOps (maskFilter mask gs) = some (maskFilter mask ops) := by
+  induction gs generalizing ops mask with
+  | nil => simp [gatesToOps] at h; subst h; cases mask <;> rfl
+  | cons g gs ih =>
+    simp only [gatesToOps, bind, Option.bind] at h
+    cases ho : g.toOp with
+    | none => simp [ho] at h
+    | some o =>
+      cases hos : gatesToOps gs with
+      | none => simp [ho, hos] at h
+      | some os =>
+        simp [ho, hos] at h; subst h
+        cases mask with
+        | nil => rfl
+        | cons b bs =>
+          cases b
+          · simpa [maskFilter] using ih os bs hos
+          · simp only [maskFilter, if_true]
+            simp [gatesToOps, ho, ih os bs hos]
+
+/-- deleting operations that are ± the identity changes the circuit's operation by a sign only -/
+theorem mask_sound (k : Consts R) (ops : List Op) (mask : List Bool) (hlen : mask.length = ops.length)
+    (hid : ∀ i : Nat, mask[i]? = some false → ∀ o, ops[i]? = some o → IsSignId k o) :
+    ∃ s : R, s * s = 1 ∧ ∀ ψ : State R, semOps k (maskFilter mask ops) ψ = fun x => s * semOps k ops ψ x := by
+  induction ops generalizing mask with
+  | nil => exact ⟨1, by ring, fun ψ => by cases mask <;> simp [maskFilter, semOps]⟩
+  | cons o os ih =>
+    cases mask with
+    | nil => simp at hlen
+    | cons b bs =>
+      have hlen' : bs.length = os.length := by simpa using hlen
+      obtain ⟨s1, hs1, h1⟩ := ih bs hlen' (fun i hi o' ho' => hid (i + 1) (by simpa using hi) o' (by simpa using ho'))
+      cases b
+      · obtain ⟨s0, hs0, h0⟩ := hid 0 (by simp) o (by simp)
+        refine ⟨s1 * s0, by linear_combination (s0 * s0) * hs1 + hs0, ?_⟩
+        intro ψ
+        simp only [maskFilter, Bool.false_eq_true, if_false]
+        rw [h1 ψ]
+        have e : semOps k (o :: os) ψ = semOps k os (o.sem k ψ) := rfl
+        rw [e, h0 ψ, semOps_smul]
+        funext x
+        linear_combination (-(s1 * semOps k os ψ x)) * hs0
+      · refine ⟨s1, hs1, ?_⟩
+        intro ψ
+        simp only [maskFilter, if_true]
+        have e : semOps k (o :: maskFilter bs os) ψ = semOps k (maskFilter bs os) (o.sem k ψ) := rfl
+        rw [e, h1]; rfl
+
+/-- **`remove_small_rotations` as a whole pass**: if every rotation the pass drops denotes ± the identity
+    (exact multiples of the period — the float threshold of the code is an input of the model), the resulting
+    circuit implements the same operation up to one global sign, on every state of every register size -/
+theorem removeSmall_sound (k : Consts R) (isSmall : Gate → Bool) (c c' : Circuit) (rq : Bool) (ops : List Op)
+    (h1 : gatesToOps c.gates = some ops) (h2 : c.removeSmallWith isSmall rq = .ok c')
+    (hid : ∀ (i : Nat) g o, c.gates[i]? = some g → ops[i]? = some o →
+      (Circuit.rotSmallSet.contains g.name && isSmall g) = true → IsSignId k o) :
+    ∃ ops' s, gatesToOps c'.gates = some ops' ∧ s * s = 1 ∧ ∀ ψ : State R, semOps k ops' ψ = fun x => s * semOps k ops ψ x := by
+  have hlenops : ops.length = c.gates.length := by
+    clear h2 hid
+    generalize c.gates = gs at h1
+    induction gs generalizing ops with
+    | nil => simp [gatesToOps] at h1; subst h1; rfl
+    | cons g gs ih =>
+      simp only [gatesToOps, bind, Option.bind] at h1
+      cases ho : g.toOp with
+      | none => simp [ho] at h1
+      | some o =>
+        cases hos : gatesToOps gs with
+        | none => simp [ho, hos] at h1
+        | some os => simp [ho, hos] at h1; subst h1; simp [ih os hos]
+  let mask := c.gates.map (fun g => !(Circuit.rotSmallSet.contains g.name && isSmall g))
+  have hgates : c'.gates = maskFilter mask c.gates := by
+    unfold Circuit.removeSmallWith at h2
+    rw [← filter_eq_mask]
+    split at h2 <;> exact Circuit.gates_ofGates _ _ c' h2
+  obtain ⟨s, hs, hsem⟩ := mask_sound k ops mask (by simp [mask, hlenops]) (by
+    intro i hi o ho
+    simp only [mask, List.getElem?_map] at hi
+    cases hg : c.gates[i]? with
+    | none => simp [hg] at hi
+    | some g =>
+      simp only [hg, Option.map_some, Option.some.injEq, Bool.not_eq_false'] at hi
+      exact hid i g o hg ho hi)
+  exact ⟨maskFilter mask ops, s, by rw [hgates]; exact gatesToOps_mask _ _ _ h1, hs, hsem⟩
+
+/-- the exact cases: a rotation by 0 is the identity, an uncontrolled rotation by 2π is −identity -/
+theorem zero_rotation_signId (k : Consts R) (L : k.Laws) (b : Base) (hb : b = .RX ∨ b = .RY ∨ b = .RZ)
+    (t : Nat) (cs : List Nat) : IsSignId k (Op.one b 0 t cs) :=
+  ⟨1, by ring, fun ψ => by rw [zero_rotation_id k L b hb t cs ψ]; funext x; ring⟩
+
+theorem two_pi_rotation_signId (k : Consts R) (L : k.Laws) (b : Base) (hb : b = .RX ∨ b = .RY ∨ b = .RZ) (t : Nat) :
+    IsSignId k (Op.one b (Ang.piQuarter 8) t []) := by
+  refine ⟨-1, by ring, fun ψ => ?_⟩
+  funext x
+  have h := rotation_shift_two_pi k L b hb 0 t ψ x
+  rw [Ang.zero_add'] at h
+  rw [h, zero_rotation_id k L b hb t [] ψ]; ring
+
 /-! ## concatenation, repetition, copy -/
 
 theorem add_sem (k : Consts R) (c d r : Circuit) (oc od : List Op) (h : c.add d = .ok r)
